@@ -17,11 +17,18 @@ REPO = os.environ.get("VERIF_REPO", "/repo")
 _OBS = []
 
 
+_TIER = "quick"
+
+
 def _discharge_idx(i):
-    from pyvc.solve import discharge
+    from pyvc.solve import discharge, second_opinion
     r = discharge(_OBS[i])
     m = r.pop("model", None)
     r["has_model"] = m is not None
+    if _TIER == "thorough" and r["status"] == "proved" and not r["backend"].startswith("cvc5"):
+        # thorough tier: every obligation discharged by z3 is also submitted to cvc5 (independent code base); `sat` there is a
+        # disagreement between back ends and stops the check (exit 3), `unknown` leaves the z3 verdict as it is
+        r["second"] = second_opinion(_OBS[i])
     return i, r
 
 
@@ -31,7 +38,8 @@ def _worker(args):
     try:
         from contracts import build
         from pyvc.solve import discharge, model_summary, smt2_of
-        global _OBS
+        global _OBS, _TIER
+        _TIER = tier
         eng = build(pid)
         rep = eng.verify(key)
         obs = []
@@ -53,8 +61,11 @@ def _worker(args):
                 r = discharge(ob, z3_ms=3000, cli_s=5) if i in pre else discharge(ob)
                 if i in pre and r["status"] == "proved":
                     r = discharge(ob)
+            if tier == "thorough" and i not in pre and r["status"] == "proved" and not r["backend"].startswith("cvc5"):
+                from pyvc.solve import second_opinion
+                r["second"] = second_opinion(ob)
             item = dict(name=ob.name, kind=ob.kind, line=ob.lineno, status=r["status"], backend=r["backend"],
-                        time=r["time"], model=model_summary(r.get("model")), reason=r.get("reason"))
+                        time=r["time"], model=model_summary(r.get("model")), reason=r.get("reason"), second=r.get("second"))
             if r["status"] in ("failed", "candidate") and r.get("model") is not None:
                 try:
                     item["witness"] = eng.witness(key, ob, r["model"])
@@ -170,6 +181,10 @@ def run_property(pid, tier="quick", seed=0):
             if ob["status"] == "proved":
                 n_dis += 1
                 backends[ob["backend"]] = backends.get(ob["backend"], 0) + 1
+                if ob.get("second") == "unsat":
+                    backends["confirmed by cvc5 (thorough tier)"] = backends.get("confirmed by cvc5 (thorough tier)", 0) + 1
+                elif ob.get("second") == "sat":
+                    crashes.append(dict(function=rep["key"], error=f"back ends disagree on {ob['name'][:160]}: {ob['backend']} proved it, cvc5 found a model"))
             elif ob["status"] == "failed":
                 violations.append(dict(function=rep["key"], **ob))
             else:
